@@ -22,6 +22,7 @@ mod c15;
 mod c16;
 mod c17;
 mod c18;
+mod c19;
 pub mod expand;
 
 /// Writes events (with outcomes) into shards of bounded size; every shard starts with the cfg event.
@@ -35,12 +36,15 @@ pub struct Tracer {
     cur_bytes: usize,
     shard_no: usize,
     pub total: u64,
+    /// registers of program traces (C19): the events keep {"r": i} references, the harness substitutes
+    /// the decimal the crate really produced before executing
+    pub regs: Vec<Value>,
 }
 
 impl Tracer {
     pub fn new(dir: &str, prefix: &str, shard_events: usize) -> Tracer {
         std::fs::create_dir_all(dir).expect("outdir");
-        Tracer { dir: dir.into(), prefix: prefix.into(), shard_events, shard_bytes: 24 << 20, cur: None, cur_events: 0, cur_bytes: 0, shard_no: 0, total: 0 }
+        Tracer { dir: dir.into(), prefix: prefix.into(), shard_events, shard_bytes: 24 << 20, cur: None, cur_events: 0, cur_bytes: 0, shard_no: 0, total: 0, regs: vec![Value::Null; 16] }
     }
     fn roll(&mut self) {
         if let Some(mut f) = self.cur.take() {
@@ -53,6 +57,12 @@ impl Tracer {
         self.cur = Some(f);
         self.cur_events = 0;
         self.cur_bytes = 0;
+    }
+    /// make sure the next n events land in the same shard (programs and history groups must not span shards)
+    pub fn reserve(&mut self, n: usize) {
+        if self.cur.is_some() && self.cur_events > 0 && self.cur_events + n > self.shard_events {
+            self.roll();
+        }
     }
     /// force a new shard (used where history variables must not span shards)
     pub fn cut(&mut self) {
@@ -72,7 +82,48 @@ impl Tracer {
                 ev.as_object_mut().unwrap().insert("lhsprim".into(), Value::Bool(true));
             }
         }
-        let r = if ev["op"] == "reset" || ev["op"] == "note" { Value::Null } else { crate::exec::exec(&ev) };
+        let r = if ev["op"] == "reset" || ev["op"] == "note" {
+            Value::Null
+        } else if ev["op"] == "load" {
+            let k = ev["dst"].as_u64().unwrap() as usize;
+            // through the crate's constructor and accessor
+            let x = crate::wire::json_to_dec(&ev["a"]);
+            let v = crate::wire::dec_to_json(&x);
+            self.regs[k] = v.clone();
+            serde_json::json!({"d": v})
+        } else {
+            // resolve register references for execution only
+            let mut call = ev.clone();
+            let mut uses_regs = false;
+            for key in ["a", "b"] {
+                if let Some(i) = call.get(key).and_then(|x| x.get("r")).and_then(|i| i.as_u64()) {
+                    call[key] = self.regs[i as usize].clone();
+                    uses_regs = true;
+                }
+            }
+            if let Some(xs) = call.get_mut("xs").and_then(|x| x.as_array_mut()) {
+                for x in xs.iter_mut() {
+                    if let Some(i) = x.get("r").and_then(|i| i.as_u64()) {
+                        *x = self.regs[i as usize].clone();
+                        uses_regs = true;
+                    }
+                }
+            }
+            if let Some(dt) = call.get("dt").and_then(|d| d.as_i64()) {
+                // upward re-scaling by dt digits from the register's current scale
+                let t = crate::wire::json_scale(&call["a"]) + dt;
+                call.as_object_mut().unwrap().remove("dt");
+                call["t"] = Value::from(t);
+                ev.as_object_mut().unwrap().remove("dt");
+                ev["t"] = Value::from(t);
+            }
+            let r = crate::exec::exec(&call);
+            if let (Some(k), Some(dv)) = (ev.get("dst").and_then(|k| k.as_u64()), r.get("d")) {
+                self.regs[k as usize] = dv.clone();
+            }
+            let _ = uses_regs;
+            r
+        };
         if !r.is_null() {
             ev.as_object_mut().unwrap().insert("r".into(), r.clone());
         }
@@ -131,6 +182,7 @@ pub fn drive(prop: &str, tier: &str, seed: u64, outdir: &str) -> u64 {
         "C16" => c16::drive(&mut tr, &mut rng, thorough),
         "C17" => c17::drive(&mut tr, &mut rng, thorough),
         "C18" => c18::drive(&mut tr, &mut rng, thorough),
+        "C19" => c19::drive(&mut tr, &mut rng, thorough),
         _ => panic!("no driver for {}", prop),
     }
     tr.finish();
